@@ -1,5 +1,5 @@
-(* C31/Witness.v — concrete runs: the inherited known deviation (C32's release class reaches the cache through the
-   PropertiesChanged stream) and a non-trivial run that meets the hypotheses of the partial theorem. *)
+(* C31/Witness.v — concrete runs: the witness of the repaired finding and a non-trivial run that meets the
+   hypotheses of the theorem. *)
 From Coq Require Import List NArith Bool Lia.
 Import ListNotations.
 From ZV Require Import Base.Bytes C32.Model C32.Spec C32.Facts C32.Proofs C31.Model C31.Spec C31.Facts C31.Proofs.
@@ -12,35 +12,21 @@ Definition drv (old new : option N) : sigm :=
 
 Definition pc_w : pcfg := {| p_dest := DWell; p_pi := 0; p_unc := [3] |}.
 
-(* C31_full_statement *)
-Definition C31_full_statement : Prop :=
-  forall pc h sched, bus_history (scfg pc) h = true ->
-    let x := crun pc h sched in
-    (c_ready x <> Some true -> forall p, cached x p = None) /\
-    (caught_up x -> forall p, cached x p = spec_cache pc (received x h) p) /\
-    (c_ready x = Some true -> spec_ready pc (received x h) = Some true).
-
-(* ---- known finding (inherited from C32): the name is released right after the lookup answer, both are read
-        before SignalStream::new runs again; the former owner's update still reaches the cache *)
+(* ---- the former known finding (C32's release class seen through the cache), repaired by 902c9069: the name is
+        released right after the lookup answer and both are read before SignalStream::new runs again; the former
+        owner's update no longer reaches the cache *)
 Definition h_release : list wmsg :=
   [WRep PPlain; WRep (POwner 1); WSig (drv (Some 1) None); WRep PPlain; WRep (PSnap [(0, 5)]);
    WSig (upd 1 0 [(0, 7)] [])].
 Definition sched_release : list caction :=
   [CTask; CTick; CTask; CTick; CTick; CTask; CTick; CTask; CTask; CTick; CTask; CTick; CTask; CTask].
 
-Lemma owner_release_buffered_refuted :
+Lemma repaired_history :
   bus_history (scfg pc_w) h_release = true /\
   let x := crun pc_w h_release sched_release in
-  w_lost (cw x) = true /\ caught_up x /\ received x h_release = h_release /\
-  cached x 0 = Some 7 /\ spec_cache pc_w h_release 0 = Some 5.
+  caught_up x /\ received x h_release = h_release /\
+  cached x 0 = Some 5 /\ spec_cache pc_w h_release 0 = Some 5.
 Proof. vm_compute. repeat split; reflexivity. Qed.
-
-Lemma full_statement_refuted : ~ C31_full_statement.
-Proof.
-  intro H. specialize (H pc_w h_release sched_release).
-  destruct owner_release_buffered_refuted as (Hb & _ & Hc & Hr & Hv & Hs). cbv zeta in Hc, Hr, Hv, Hs.
-  destruct (H Hb) as (_ & H2 & _). specialize (H2 Hc 0). rewrite Hr in H2. congruence.
-Qed.
 
 (* ---- non-vacuity *)
 Definition h_clean : list wmsg :=
@@ -59,11 +45,8 @@ Definition sched_clean : list caction :=
 Lemma clean_example :
   bus_history (scfg pc_w) h_clean = true /\
   let x := crun pc_w h_clean sched_clean in
-  ~ Known_C31 pc_w h_clean sched_clean /\ caught_up x /\ received x h_clean = h_clean /\ c_ready x = Some true /\
+  caught_up x /\ received x h_clean = h_clean /\ c_ready x = Some true /\
   map (cached x) [0; 1; 2; 3] = [Some 7; None; Some 4; None] /\
   map (spec_cache pc_w h_clean) [0; 1; 2; 3] = [Some 7; None; Some 4; None] /\
   c_seen x = [(0, Some 7)].
-Proof.
-  split; [vm_compute; reflexivity|]. cbv zeta. split; [intro H; vm_compute in H; discriminate|].
-  vm_compute. repeat split; reflexivity.
-Qed.
+Proof. vm_compute. repeat split; reflexivity. Qed.
